@@ -320,16 +320,45 @@ func (p *Program) Reach(roots ...*ssa.Function) (map[*ssa.Function]bool, map[*ss
 			q = append(q, r)
 		}
 	}
-	for len(q) > 0 {
-		f := q[0]
-		q = q[1:]
-		for _, c := range p.out[f] {
-			if seen[c] || !inRepo(c) || isStopNode(c) || p.unregisteredHandler(c) {
+	// a closure can only run if the function that creates it ran: VTA resolves callback parameters (Iterate(fn)) to every
+	// closure that flows into them anywhere in the program, so closures wait until their parent is reachable.
+	type pend struct{ c, from *ssa.Function }
+	var pending []pend
+	for {
+		for len(q) > 0 {
+			f := q[0]
+			q = q[1:]
+			for _, c := range p.out[f] {
+				if seen[c] || !inRepo(c) || isStopNode(c) || p.unregisteredHandler(c) {
+					continue
+				}
+				if c.Parent() != nil && !seen[c.Parent()] {
+					pending = append(pending, pend{c, f})
+					continue
+				}
+				seen[c] = true
+				parent[c] = f
+				q = append(q, c)
+			}
+		}
+		progress := false
+		var rest []pend
+		for _, pe := range pending {
+			if seen[pe.c] {
 				continue
 			}
-			seen[c] = true
-			parent[c] = f
-			q = append(q, c)
+			if seen[pe.c.Parent()] {
+				seen[pe.c] = true
+				parent[pe.c] = pe.from
+				q = append(q, pe.c)
+				progress = true
+			} else {
+				rest = append(rest, pe)
+			}
+		}
+		pending = rest
+		if !progress {
+			break
 		}
 	}
 	return seen, parent
